@@ -589,11 +589,11 @@ def queries(draw, cfg, depth=2):
 
 
 @st.composite
-def table_data(draw, tables=None, max_rows=4):
+def table_data(draw, tables=None, max_rows=4, min_rows=0):
     """{table: rows} over the tiny domains (NULLs, duplicates, empty tables frequent)."""
     out = {}
     for t in (tables or sorted(SCHEMA)):
-        n = draw(st.integers(0, max_rows))
+        n = draw(st.integers(min_rows, max_rows))
         rows = []
         for _ in range(n):
             row = []
